@@ -14,7 +14,7 @@ OBLIGATIONS = [
     "c09_spec_decoder", "c09_spec_decoder_oob", "c09_spec_decoder_parity",
     "c09_fec_ids", "c09_fec_ids_distinct", "c09_slots_distinct", "c09_oob_ids", "c09_parity_ids_consumed", "c09_parity_is_rs",
     "c09_fresh_nonce_each", "c09_distinct", "c09_orbit",
-    "c09_rng_key_exposure", "c09_rng_reseed_exact", "c09_rng_epoch_orbit", "c09_rng_epoch_nonces_distinct", "c09_rng_fill_is_one_read",
+    "c09_rng_key_exposure", "c09_rng_reseed_exact", "c09_rng_epoch_orbit", "c09_rng_epoch_nonces_distinct", "c09_rng_fill_is_one_read", "c09_rng_fill_total",
 ]
 
 
